@@ -143,8 +143,30 @@ func c10CheckBinary(a, b *big.Int, ra, rb any) string {
 	if !univ.Equal(res[5:], want) {
 		return fmt.Sprintf("comparisons of %s and %s = %s, want %s", univ.Repr(ra), univ.Repr(rb), univ.Canon(res[5:]), univ.Canon(want))
 	}
+	// accumulating forms, and the operands read again afterwards (an accumulator must not be one of the operands)
+	if new(big.Int).Mod(new(big.Int).Add(new(big.Int).Abs(a), new(big.Int).Lsh(new(big.Int).Abs(b), 1)), big.NewInt(3)).Sign() != 0 && !c10AllAccum {
+		return "" // quick: a third of the pairs (every operand still meets hundreds of partners)
+	}
+	o = RunCode(c10Accum, nil, DefaultBudget, ra, rb)
+	r, bad = single(o)
+	if bad != "" {
+		return "accumulating forms failed: " + bad
+	}
+	res = r.([]any)
+	sum := new(big.Int).Add(a, b)
+	for i, w := range []*big.Int{sum, new(big.Int).Add(sum, a), sum, sum, new(big.Int).Mul(sum, big.NewInt(2)), a, b, sum} {
+		if m := expInt(i, []string{"[a,b]|add", "[a,b,a]|add", "reduce +", "[a,b]|add (again)", "[[a,b],[a,b]]|map(add)|add", "a read again", "b read again", "a + b afterwards"}[i], w); m != "" {
+			return m
+		}
+	}
 	return ""
 }
+
+// c10AllAccum: the thorough tier runs the accumulating forms on every pair.
+var c10AllAccum bool
+
+var c10Accum = MustCompile(`[([$a, $b] | add), ([$a, $b, $a] | add), (reduce ($a, $b) as $x (0; . + $x)), ([$a, $b] | add), ([[$a, $b], [$a, $b]] | map(add) | add), $a, $b, ($a + $b)]`,
+	gojq.WithVariables([]string{"$a", "$b"}))
 
 func c10CheckUnary(a *big.Int, ra any) string {
 	o := RunCode(c10Unary, nil, DefaultBudget, ra)
@@ -407,6 +429,7 @@ func c10Class(x *big.Int) string {
 }
 
 func c10Run(c *engine.Ctx) {
+	c10AllAccum = !c.Quick()
 	B := c10Operands(!c.Quick())
 	c.Res.Counters["operand_values"] = int64(len(B))
 
@@ -433,7 +456,7 @@ func c10Run(c *engine.Ctx) {
 			c.Outcome("operands " + c10Class(a) + " and " + c10Class(b))
 		}
 	}
-	c.Sample(map[string]any{"a": B[len(B)/2].String(), "b": B[len(B)/3].String(), "ops": "+ - * / % == != < <= > >=", "representations": "int, *big.Int, json.Number (9 pairs)"})
+	c.Sample(map[string]any{"a": B[len(B)/2].String(), "b": B[len(B)/3].String(), "ops": "+ - * / % == != < <= > >=, add, reduce +, operands re-read afterwards", "representations": "int, *big.Int, json.Number (9 pairs)"})
 
 	c.Sub("literal-operands")
 	// the same operators on operands written as literals in the query text (compile-time folding of signs)
@@ -555,7 +578,7 @@ func init() {
 	engine.Register(&engine.Check{
 		ID:    "C10",
 		Level: "exploration",
-		Rule: "all ordered pairs of a boundary operand set (0, +-1, +-2^k, +-(2^k+-1), int64 limits and neighbours, sqrt(2^63) neighbours, 2^32 neighbours, 10^j, 1..40-digit integers) x {+ - * / % == != < <= > >=} in all 9 pairs of exact Go representations (int, *big.Int, json.Number) against math/big; " +
+		Rule: "all ordered pairs of a boundary operand set (0, +-1, +-2^k, +-(2^k+-1), int64 limits and neighbours, sqrt(2^63) neighbours, 2^32 neighbours, 10^j, 1..40-digit integers) x {+ - * / % == != < <= > >=, add, reduce +, operands read again afterwards} in all 9 pairs of exact Go representations (int, *big.Int, json.Number) against math/big; " +
 			"the same operands as query-text literals; unary neg/abs/length/tostring/tojson/fromjson/tonumber; every number literal of a lexical product grammar (sign x int x fraction x exponent) passed through 10 untouched-value forms, Marshal, tojson and the command (verbatim digits); float64 boundary classes for shortest round-trip, valid-JSON output. Every case is distinct by construction.",
 		Assume:         []string{"math/big is the arithmetic oracle", "only whether a non-integral quotient is a number is checked, not its float value"},
 		Run:            c10Run,
